@@ -16,6 +16,7 @@ import (
 	"github.com/bmeg/grip/gripql"
 
 	"github.com/kennygrant/sanitize"
+	"google.golang.org/protobuf/proto"
 )
 
 type Stream struct {
@@ -39,6 +40,21 @@ type Job struct {
 	DataType      gdbi.DataType
 	MarkTypes     map[string]gdbi.DataType
 	StepChecksums []string
+	lock          sync.Mutex //guards Status: the spooling goroutine updates it while requests read it
+}
+
+// update changes the status under the job's lock
+func (job *Job) update(f func(s *gripql.JobStatus)) {
+	job.lock.Lock()
+	defer job.lock.Unlock()
+	f(&job.Status)
+}
+
+// snapshot returns a copy of the current status
+func (job *Job) snapshot() *gripql.JobStatus {
+	job.lock.Lock()
+	defer job.lock.Unlock()
+	return proto.Clone(&job.Status).(*gripql.JobStatus)
 }
 
 func jobKey(graph, job string) string {
@@ -90,8 +106,8 @@ func (fs *FSResults) List(graph string) (chan string, error) {
 		defer close(out)
 		fs.jobs.Range(func(key, value interface{}) bool {
 			vJob := value.(*Job)
-			if vJob.Status.Graph == graph {
-				out <- vJob.Status.Id
+			if s := vJob.snapshot(); s.Graph == graph {
+				out <- s.Id
 			}
 			return true
 		})
@@ -106,9 +122,9 @@ func (fs *FSResults) Search(graph string, Query []*gripql.GraphStatement) (chan 
 		defer close(out)
 		fs.jobs.Range(func(key, value interface{}) bool {
 			vJob := value.(*Job)
-			if vJob.Status.Graph == graph {
+			if s := vJob.snapshot(); s.Graph == graph {
 				if JobMatch(qcs, vJob.StepChecksums) {
-					out <- &vJob.Status
+					out <- s
 				}
 			}
 			return true
@@ -146,26 +162,29 @@ func (fs *FSResults) Spool(graph string, stream *Stream) (string, error) {
 	fs.jobs.Store(jobKey(graph, jobName), job)
 	tbStream := MarshalStream(stream.Pipe, 4) //TODO: make worker count configurable
 	go func() {
-		job.Status.State = gripql.JobState_RUNNING
-		log.Printf("Starting Job: %#v", job)
+		job.update(func(s *gripql.JobStatus) { s.State = gripql.JobState_RUNNING })
+		log.Printf("Starting Job: %s", jobName)
 		defer resultFile.Close()
 		for i := range tbStream {
 			resultFile.Write(i)
 			resultFile.Write([]byte("\n"))
-			job.Status.Count += 1
+			job.update(func(s *gripql.JobStatus) { s.Count += 1 })
 		}
 		statusPath := filepath.Join(spoolDir, "status")
 		statusFile, err := os.Create(statusPath)
 		if err == nil {
 			defer statusFile.Close()
+			job.lock.Lock()
 			job.Status.State = gripql.JobState_COMPLETE
 			out, err := json.Marshal(job)
+			count := job.Status.Count
+			job.lock.Unlock()
 			if err == nil {
 				statusFile.Write([]byte(fmt.Sprintf("%s\n", out)))
 			}
-			log.Printf("Job Done: %s (%d results)", jobName, job.Status.Count)
+			log.Printf("Job Done: %s (%d results)", jobName, count)
 		} else {
-			job.Status.State = gripql.JobState_ERROR
+			job.update(func(s *gripql.JobStatus) { s.State = gripql.JobState_ERROR })
 			log.Printf("Job Error: %s %s", jobName, err)
 		}
 	}()
@@ -175,7 +194,7 @@ func (fs *FSResults) Spool(graph string, stream *Stream) (string, error) {
 func (fs *FSResults) Stream(ctx context.Context, graph, id string) (*Stream, error) {
 	if v, ok := fs.jobs.Load(jobKey(graph, id)); ok {
 		vJob := v.(*Job)
-		if vJob.Status.State == gripql.JobState_COMPLETE {
+		if vJob.snapshot().State == gripql.JobState_COMPLETE {
 			resultFile := filepath.Join(fs.BaseDir, sanitize.Name(graph), sanitize.Name(id), "results")
 			results, err := os.Open(resultFile)
 			if err != nil {
@@ -213,7 +232,7 @@ func (fs *FSResults) Stream(ctx context.Context, graph, id string) (*Stream, err
 func (fs *FSResults) Delete(graph, id string) error {
 	if v, ok := fs.jobs.Load(jobKey(graph, id)); ok {
 		vJob := v.(*Job)
-		if vJob.Status.State == gripql.JobState_RUNNING || vJob.Status.State == gripql.JobState_QUEUED {
+		if s := vJob.snapshot(); s.State == gripql.JobState_RUNNING || s.State == gripql.JobState_QUEUED {
 			return fmt.Errorf("Job cancel not yet implemented")
 		}
 		fs.jobs.Delete(jobKey(graph, id))
@@ -226,8 +245,7 @@ func (fs *FSResults) Delete(graph, id string) error {
 func (fs *FSResults) Status(graph, id string) (*gripql.JobStatus, error) {
 	if v, ok := fs.jobs.Load(jobKey(graph, id)); ok {
 		vJob := v.(*Job)
-		a := vJob.Status
-		return &a, nil
+		return vJob.snapshot(), nil
 	}
 	return nil, fmt.Errorf("Job Not Found")
 }
